@@ -21,6 +21,17 @@ theorem delta_codec (key last : Bytes) (hlen : last.length < 2 ^ 64) :
     deltaDecode (deltaEncode key last) last = .ok key :=
   delta_roundtrip key last hlen
 
+/-- the compressed stream is lossless: whatever (lossless) key codec is used, decompressing the compressed
+    export of a tree whose routing keys are the leftmost keys of the right subtrees (what `Set` / `Remove`
+    maintain, C01) yields the plain export again - so `import_of_export` applies to it as well -/
+theorem compressed_stream_roundtrip {K' : Type} (enc : K → Option K → K') (dec : K' → Option K → K)
+    (hcodec : ∀ k last, dec (enc k last) last = k)
+    (d : Nat) (t : Node K V) (hr : RoutingFirst t) (hp : PosHeight t) :
+    ∃ cs, (cexpAll enc ⟨none, []⟩ (exportNodes d t)).map (·.2) = some cs ∧
+          (cimpAll dec ⟨none, [], []⟩ cs).map (·.2) = some (exportNodes d t) := by
+  obtain ⟨cs, h1, h2⟩ := compress_roundtrip enc dec hcodec d t hr hp ⟨none, []⟩ ⟨none, [], []⟩ rfl
+  exact ⟨cs, by rw [h1]; rfl, by rw [h2]; rfl⟩
+
 /-- for **every** node (any height, version, nil key/value) on **every** stack, `Importer.Add`
     returns or errors; it never reaches a Go panic -/
 theorem importer_add_total (importVer : Int) (stack : List ImpEntry) (en : Option RawNode) :
